@@ -269,6 +269,20 @@ func (c *RollingFileAppender) createFile(formatTime string) (string, *os.File, e
 	return filePath, file, nil
 }
 
+// isRotationTimestamp reports whether s has the shape produced by
+// TimeRotation.Format: exactly 14 decimal digits.
+func isRotationTimestamp(s string) bool {
+	if len(s) != 14 {
+		return false
+	}
+	for i := range len(s) {
+		if s[i] < '0' || s[i] > '9' {
+			return false
+		}
+	}
+	return true
+}
+
 // clearExpiredFiles removes log files older than MaxAge.
 func (c *RollingFileAppender) clearExpiredFiles() {
 	expiration := time.Now().Add(-time.Duration(c.MaxAge) * time.Hour)
@@ -277,7 +291,9 @@ func (c *RollingFileAppender) clearExpiredFiles() {
 		if entry.IsDir() {
 			continue
 		}
-		if !strings.HasPrefix(entry.Name(), c.FileName+".") {
+		// Only files this appender creates itself: FileName + "." + yyyyMMddHHmmss.
+		suffix, ok := strings.CutPrefix(entry.Name(), c.FileName+".")
+		if !ok || !isRotationTimestamp(suffix) {
 			continue
 		}
 		info, err := entry.Info()
